@@ -493,12 +493,12 @@ func runC17(c c17Case, tr *vw.Trace) *vw.Violation {
 					}
 				}
 				if grace {
-					return vw.Violationf("not-converged-liveness-by-timeout", "%s: after 48 s the peer's table is %v, last requested set %v (connection up=%v pending=%v; the session's last connect errors: %v)", label, got, want, up, pending, envLog.recent())
+					return vw.Violationf("not-converged-liveness-by-timeout", "%s: after 30 s the peer's table is %v, last requested set %v (connection up=%v pending=%v; the session's last connect errors: %v)", label, got, want, up, pending, envLog.recent())
 				}
-				// the retry back-off of the session doubles from 1 s: 45 s more leave room for six failed attempts in a row
+				// the retry back-off of the session doubles from 1 s: 27 s more leave room for five failed attempts in a row
 				// on a machine that is busy with other checks; a session that never comes back is reported all the same
 				grace = true
-				deadline = time.Now().Add(45 * time.Second)
+				deadline = time.Now().Add(27 * time.Second)
 			}
 			time.Sleep(200 * time.Microsecond)
 		}
